@@ -292,7 +292,9 @@ FTMarkNotarized(p, blk) ==
             [] old[1] \in {"fin", "ifin"} ->
                  IF old[2] # h THEN [p |-> Panic(p1, "consensus safety violation"), fe |-> EmptyFE]
                  ELSE [p |-> p, fe |-> EmptyFE]           \* INTENDED: keep the stronger status
-            [] old[1] = "iskip" -> [p |-> p1, fe |-> EmptyFE]
+            \* INTENDED (F11): the slot is decided (skipped); a late notarization certificate for a block
+            \* that is not on the finalized chain does not change that
+            [] old[1] = "iskip" -> [p |-> p, fe |-> EmptyFE]
             [] old[1] = "fpn" ->
                  FinalizedBlock([p EXCEPT !.fst[s] = <<"fin", h>>], blk)
 
